@@ -75,7 +75,11 @@ func w4Gen(r *rand.Rand, prop, tier string) *simrt.Case {
 	// environment
 	for i := 0; i < r.IntN(4); i++ {
 		var op simrt.Op
-		switch r.IntN(8) {
+		k := r.IntN(8)
+		if metaHeavy && r.IntN(2) == 0 {
+			k = 6 + r.IntN(2) // topics come and go while metadata is being asked for
+		}
+		switch k {
 		case 0, 1:
 			op = simrt.Op{Kind: "move", A: int64(r.IntN(3)), B: int64(r.IntN(4)), D: int64(r.IntN(3)), C: pickI(r, 0, 5, 300, -1)}
 		case 2:
@@ -89,7 +93,7 @@ func w4Gen(r *rand.Rand, prop, tier string) *simrt.Case {
 		case 6:
 			op = simrt.Op{Kind: "create-topic", A: int64(r.IntN(4)), B: int64(r.IntN(3))}
 		default:
-			op = simrt.Op{Kind: "delete-topic", A: int64(r.IntN(4))}
+			op = simrt.Op{Kind: "delete-topic", A: int64(r.IntN(4)), B: int64(r.IntN(2))}
 		}
 		op.Actor = 100 + i%2
 		if r.IntN(2) == 0 {
